@@ -63,17 +63,28 @@ def cat_of(ch):
 
 # ------------------------------------------------------------------ tokenize
 
-def tokens_of(s):
-    """[(text, position, category name)] or raises."""
-    return [(str(t), t.position, catname(t.category))
-            for t in tokenize(categorize(s))]
+class NonTerminating(Exception):
+    pass
+
+
+def tokens_of(s, limit=None):
+    """[(text, position, category name)] or raises.  A correct tokenizer
+    yields at most len(s) tokens (none is empty); more than that means it no
+    longer makes progress - stop instead of exhausting memory."""
+    out = []
+    cap = (len(s) + 2) if limit is None else limit
+    for t in tokenize(categorize(s)):
+        out.append((str(t), t.position, catname(t.category)))
+        if len(out) > cap:
+            raise NonTerminating()
+    return out
 
 
 def canon_tokens(s):
     try:
-        toks = tokens_of(s)
+        toks = with_watchdog(20, tokens_of, s)
     except Watchdog:
-        raise
+        return 'ERR Watchdog'
     except BaseException as e:      # noqa
         return 'ERR ' + type(e).__name__
     return 'OK ' + ' '.join('(%s %d %s)' % (c, p, cps(t)) for t, p, c in toks)
